@@ -100,13 +100,48 @@ func harnessFail(msg string) {
 
 var fileIdx = map[string]int{"a": 1, "b": 2, "c": 3, "d": 4, "e": 5}
 
+// Concrete names are longer than 5 characters on purpose: the session's intern table encodes
+// shorter strings inline, so only longer names get history-dependent intern IDs.
+var pkgNames = map[string]string{"p": "pkgone", "q": "pkgtwo", "r": "pkgthree"}
+var declNames = map[string]string{"A": "Alpha", "B": "Bravo", "E": "Echoes", "S": "Service"}
+
+func pkgName(p string) string {
+	if n, ok := pkgNames[p]; ok {
+		return n
+	}
+	harnessFail("unknown package " + p)
+	return ""
+}
+
+func hostName(id string) string { return "Host" + strings.ToUpper(id) }
+
+func declName(n string) string {
+	if c, ok := declNames[n]; ok {
+		return c
+	}
+	if len(n) == 2 && n[0] == 'H' {
+		return hostName(n[1:])
+	}
+	harnessFail("unknown declaration name " + n)
+	return ""
+}
+
+// refName turns the spec's spelling ".p.A" into the concrete absolute name.
+func refName(r string) string {
+	parts := strings.Split(r, ".")
+	if len(parts) != 3 || parts[0] != "" {
+		harnessFail("bad reference spelling " + r)
+	}
+	return "." + pkgName(parts[1]) + "." + declName(parts[2])
+}
+
 func render(id string, f fileV) string {
 	var sb strings.Builder
 	sb.WriteString("syntax = \"proto2\";\n")
 	if f.Cmt {
 		sb.WriteString("// edited\n\n")
 	}
-	fmt.Fprintf(&sb, "package %s;\n", f.Pkg)
+	fmt.Fprintf(&sb, "package %s;\n", pkgName(f.Pkg))
 	for _, i := range f.Imports {
 		if i.Pub {
 			fmt.Fprintf(&sb, "import public \"%s.proto\";\n", i.F)
@@ -114,7 +149,7 @@ func render(id string, f fileV) string {
 			fmt.Fprintf(&sb, "import \"%s.proto\";\n", i.F)
 		}
 	}
-	fmt.Fprintf(&sb, "message H%s {\n", id)
+	fmt.Fprintf(&sb, "message %s {\n", hostName(id))
 	n := 0
 	for _, s := range []string{"f1", "f2"} {
 		r, ok := f.Refs[s]
@@ -124,9 +159,9 @@ func render(id string, f fileV) string {
 		n++
 		ty := "int32"
 		if r != "" {
-			ty = r
+			ty = refName(r)
 		}
-		fmt.Fprintf(&sb, "  optional %s %s = %d;\n", ty, s, n)
+		fmt.Fprintf(&sb, "  optional %s field_%s = %d;\n", ty, s, n)
 	}
 	sb.WriteString("  extensions 1000 to 1999;\n}\n")
 	decls := append([]string(nil), f.Decls...)
@@ -134,11 +169,12 @@ func render(id string, f fileV) string {
 	for _, d := range decls {
 		switch d {
 		case "A", "B":
-			fmt.Fprintf(&sb, "message %s {\n  optional int32 v = 1;\n  extensions 1000 to 1999;\n}\n", d)
+			fmt.Fprintf(&sb, "message %s {\n  optional int32 value = 1;\n  extensions 1000 to 1999;\n}\n", declName(d))
 		case "E":
-			fmt.Fprintf(&sb, "enum E {\n  E_%s_ZERO = 0;\n}\n", strings.ToUpper(id))
+			fmt.Fprintf(&sb, "enum %s {\n  ECHOES_%s_ZERO = 0;\n}\n", declName(d), strings.ToUpper(id))
 		case "S":
-			fmt.Fprintf(&sb, "service S {\n  rpc Do(.%s.H%s) returns (.%s.H%s);\n}\n", f.Pkg, id, f.Pkg, id)
+			h := "." + pkgName(f.Pkg) + "." + hostName(id)
+			fmt.Fprintf(&sb, "service %s {\n  rpc Method(%s) returns (%s);\n}\n", declName(d), h, h)
 		default:
 			harnessFail("unknown declaration " + d)
 		}
@@ -148,16 +184,16 @@ func render(id string, f fileV) string {
 		if !ok {
 			harnessFail("unknown file id " + id)
 		}
-		fmt.Fprintf(&sb, "extend %s {\n  optional int32 x_%s = %d;\n}\n", x, id, 1000+idx)
+		fmt.Fprintf(&sb, "extend %s {\n  optional int32 ext_%s = %d;\n}\n", refName(x), id, 1000+idx)
 	}
 	switch f.Defect {
 	case "none", "":
 	case "unknown":
-		fmt.Fprintf(&sb, "message U_%s { optional Nope_%s x = 1; }\n", id, id)
+		fmt.Fprintf(&sb, "message Unknown_%s { optional Nope_%s x = 1; }\n", id, id)
 	case "dup":
-		fmt.Fprintf(&sb, "message D_%s {}\nmessage D_%s {}\n", id, id)
+		fmt.Fprintf(&sb, "message Double_%s {}\nmessage Double_%s {}\n", id, id)
 	case "syntax":
-		fmt.Fprintf(&sb, "message S_%s { optional int32 x 1; }\n", id)
+		fmt.Fprintf(&sb, "message Syntax_%s { optional int32 x 1; }\n", id)
 	default:
 		harnessFail("unknown defect " + f.Defect)
 	}
@@ -223,6 +259,7 @@ type engine struct {
 // keyStats: count Executor.Keys() around every Link run (incremental.WithTimings is not wired to
 // the root task in this version of the executor, so it reports nothing).
 var keyStats = true
+var dump bool
 
 func newEngine(par int) *engine {
 	mem := &memOpener{files: map[string]*source.File{}}
@@ -574,6 +611,7 @@ func main() {
 	timeoutS := flag.Int("timeout", 60, "per-compile timeout, seconds")
 	maxPer := flag.Int("maxper", 25, "disagreements reported per class")
 	flag.BoolVar(&keyStats, "keystats", true, "count memoised queries before/after every incremental run")
+	flag.BoolVar(&dump, "dump", false, "print every step's files and both reports to stderr (debugging aid)")
 	noEvict := flag.Bool("no-evict", false, "SELF-TEST: do not evict (the check must then fire)")
 	dropChanged := flag.Bool("drop-changed", false, "SELF-TEST: ignore the last path of every multi-path changed set")
 	flag.Parse()
@@ -738,6 +776,14 @@ func replay(c *histCase, raw []byte, par int, sk *sink, ct *counters,
 		}
 		if strings.HasPrefix(fr.Err, "hang") || strings.HasPrefix(fr.Err, "panic") {
 			sk.report("fresh:"+strings.SplitN(fr.Err, ":", 2)[0]+":"+feature, fmt.Sprintf("step %d (%s): %s", stepNo, op, fr.Err), raw, stepNo, par)
+		}
+		if dump {
+			fmt.Fprintf(os.Stderr, "=== par %d step %d (%s) request %v\n", par, stepNo, op, paths)
+			for _, p := range keys(texts) {
+				fmt.Fprintf(os.Stderr, "--- %s\n%s", p, texts[p])
+			}
+			fmt.Fprintf(os.Stderr, "--- incremental: success=%v fatal=%q desc=%v fds=%s\n%s\n--- fresh: success=%v fatal=%q desc=%v fds=%s\n%s\n",
+				inc.Success, inc.Fatal, inc.Desc, inc.FDS, inc.Render, fr.Success, fr.Fatal, fr.Desc, fr.FDS, fr.Render)
 		}
 		// (2) the property: incremental == fresh
 		what, detail := compare(&inc, &fr, fc.Cyclic, toSet(fc.Tainted))
